@@ -135,6 +135,9 @@ pub enum OpSpec {
     Store(ExprSpec, ExprSpec),
     Branch(ExprSpec),
     Intrinsic,
+    /// an intrinsic whose written/read expression lists are present but empty (the shape
+    /// the MIPS lifter gives syscall/break/trap), or present with one read expression
+    IntrinsicWithLists(bool),
     Nop,
 }
 
@@ -186,6 +189,14 @@ impl FuncSpec {
                         Vec::new(),
                         None,
                         None,
+                        vec![0, 0, 0, 0],
+                    )),
+                    OpSpec::IntrinsicWithLists(with_read) => block.intrinsic(il::Intrinsic::new(
+                        "sim",
+                        "sim intrinsic with lists",
+                        Vec::new(),
+                        Some(Vec::new()),
+                        Some(if *with_read { vec![il::expr_const(1, 32)] } else { Vec::new() }),
                         vec![0, 0, 0, 0],
                     )),
                     OpSpec::Nop => block.nop(),
